@@ -14,6 +14,7 @@ import (
 type dProbe struct {
 	pres                        bool // the value prep returns is itself a flyt.Result
 	fails                       bool
+	xnil                        bool // the exec function answers flyt.NewErrorResult(nil): no error, no value
 	prep, exec, fb, post        int
 	execarg, postprep, postexec string
 	errTok                      error
@@ -195,7 +196,7 @@ func newDStruct(mask int, p *dProbe) flyt.Node {
 
 type dCell struct {
 	Kind                          string
-	Hp, He, Hpo, Hfb, Fails, Pres bool
+	Hp, He, Hpo, Hfb, Fails, Pres, Xnil bool
 }
 
 func buildDefaultsNode(c dCell, p *dProbe) flyt.Node {
@@ -208,6 +209,10 @@ func buildDefaultsNode(c dCell, p *dProbe) flyt.Node {
 		v, err := p.doExec(a.Value())
 		if err != nil {
 			return flyt.Result{}, err
+		}
+		if p.xnil {
+			var none error
+			return flyt.NewErrorResult(none), nil
 		}
 		return flyt.NewResult(v), nil
 	}
@@ -327,7 +332,7 @@ func buildDefaultsNode(c dCell, p *dProbe) flyt.Node {
 }
 
 func runDefaultsCell(c dCell) Event {
-	ev := Event{"ev": "defaults", "kind": c.Kind, "hp": c.Hp, "he": c.He, "hpo": c.Hpo, "hfb": c.Hfb, "fails": c.Fails, "pres": c.Pres,
+	ev := Event{"ev": "defaults", "kind": c.Kind, "hp": c.Hp, "he": c.He, "hpo": c.Hpo, "hfb": c.Hfb, "fails": c.Fails, "pres": c.Pres, "xnil": c.Xnil,
 		"prep": 0, "exec": 0, "fb": 0, "post": 0, "execarg": "none", "postprep": "none", "postexec": "none",
 		"iserr": false, "errmatch": false, "action": "", "route": "none", "panicked": false}
 	func() {
@@ -338,7 +343,7 @@ func runDefaultsCell(c dCell) Event {
 			}
 		}()
 		// on its own
-		p := &dProbe{pres: c.Pres, fails: c.Fails, errTok: errors.New("the attempt failed"), execarg: "none", postprep: "none", postexec: "none"}
+		p := &dProbe{pres: c.Pres, xnil: c.Xnil, fails: c.Fails, errTok: errors.New("the attempt failed"), execarg: "none", postprep: "none", postexec: "none"}
 		act, err := flyt.Run(context.Background(), buildDefaultsNode(c, p), flyt.NewSharedStore())
 		ev["prep"], ev["exec"], ev["fb"], ev["post"] = p.prep, p.exec, p.fb, p.post
 		ev["execarg"], ev["postprep"], ev["postexec"] = p.execarg, p.postprep, p.postexec
@@ -351,7 +356,7 @@ func runDefaultsCell(c dCell) Event {
 			ev["action"] = string(act)
 		}
 		// as the first step of a flow: which successor runs
-		p2 := &dProbe{pres: c.Pres, fails: c.Fails, errTok: errors.New("the attempt failed"), execarg: "none", postprep: "none", postexec: "none"}
+		p2 := &dProbe{pres: c.Pres, xnil: c.Xnil, fails: c.Fails, errTok: errors.New("the attempt failed"), execarg: "none", postprep: "none", postexec: "none"}
 		first := buildDefaultsNode(c, p2)
 		route := "none"
 		mk := func(name string) flyt.Node {
@@ -370,7 +375,7 @@ func init() {
 	families["defaults"] = func(o *Out, scnFile string, seed int64, count int, modes string, opts map[string]string) {
 		id := 0
 		for _, line := range readLines(scnFile) {
-			c := dCell{Kind: asStr(line["kind"]), Hp: asBool(line["hp"]), He: asBool(line["he"]), Hpo: asBool(line["hpo"]), Hfb: asBool(line["hfb"]), Fails: asBool(line["fails"]), Pres: asBool(line["pres"])}
+			c := dCell{Kind: asStr(line["kind"]), Hp: asBool(line["hp"]), He: asBool(line["he"]), Hpo: asBool(line["hpo"]), Hfb: asBool(line["hfb"]), Fails: asBool(line["fails"]), Pres: asBool(line["pres"]), Xnil: asBool(line["xnil"])}
 			id++
 			o.WriteScenario(id, "defaults", "tlc-cells", map[string]any{"kind": c.Kind}, nil, []Event{runDefaultsCell(c)})
 		}
